@@ -4,6 +4,7 @@ import CookModel.Lemmas.DiagComp
 import CookModel.Lemmas.DiagAnalysis
 import CookModel.Lemmas.DiagMore
 import CookModel.Lemmas.DiagInside
+import CookModel.Lemmas.DiagQuiet
 /-
   C07  Diagnostics are sound, complete and placed on the offending construct.
 
@@ -637,6 +638,90 @@ theorem C07_quiet_component_partial (s s1 s2 s3 s4 : BP α) (body : Body) (note 
     unfold Sat at ht
     rw [← cookwareP_cut hc hnote] at ht
     exact ⟨ht.2, (q4.trans ht.1).2.2⟩
+
+/-- **`{value%unit}` is read quietly under every extension set.**  Quantity tokens `vt ++ [%] ++ ut`
+    where the value tokens start with a token that is neither blank nor `=`, contain no `%`, and read as
+    a well-formed number / range or as a non-blank text, and the unit text is not blank:
+    `parse_quantity` pushes no event (whatever ADVANCED_UNITS, RANGE_VALUES, … are) and returns that unit. -/
+theorem C07_quiet_quantity (vt ut : List Tok) (pct t0 : Tok) (s : BP α)
+    (h0 : vt.head? = some t0) (hws : isWsComment t0.kind = false)
+    (heq : t0.kind ≠ .eq) (hvp : ∀ t ∈ vt, t.kind ≠ .percent) (hp : pct.kind = .percent)
+    (hval : (∃ v, numOrRange (α := α) (s.ext.has Gen.EXT_RANGE_VALUES) vt = some (.ok v)) ∨
+      (numOrRange (α := α) (s.ext.has Gen.EXT_RANGE_VALUES) vt = none ∧
+        (buildText t0.start vt).isTextEmpty s.cs = false))
+    (hunit : (buildText pct.stop ut).isTextEmpty s.cs = false) :
+    (parseQuantity (α := α) (vt ++ pct :: ut) s).2.evs = s.evs ∧
+    (parseQuantity (α := α) (vt ++ pct :: ut) s).1.quantity.val.unit = some (buildText pct.stop ut) := by
+  have h := parseQuantity_quiet_pct vt ut pct t0 s h0 hws heq hvp hp hval hunit
+  exact ⟨h.1.2.2, h.2⟩
+
+/-- **A plain ingredient or timer with `{value%unit}` is quiet** (parser part), for every extension set.
+    The component is cut into no modifier tokens, name tokens without alias separator (or
+    COMPONENT_ALIAS off), a non-blank name (ingredient), and the quantity tokens of `C07_quiet_quantity`;
+    the timer is not followed by `(`.  Then `ingredient` / `timer` return the component with that name and
+    a quantity, and push NO event at all.
+    (For cookware a unit is an error by design: `C07_cookware_unit_partial`.)
+    Partial: the analysis half is `C07_quiet_analysis`; cookware with a unit-less quantity is not covered. -/
+theorem C07_quiet_component_quantity (s s1 s2 s3 : BP α) (body : Body) (vt ut : List Tok) (pct t0 : Tok)
+    (hq : body.quantity = some (vt ++ pct :: ut))
+    (ha : s.ext.has Gen.EXT_COMPONENT_ALIAS = false ∨ ∀ t ∈ body.name, t.kind ≠ .or)
+    (h0 : vt.head? = some t0) (hws : isWsComment t0.kind = false)
+    (heq : t0.kind ≠ .eq) (hvp : ∀ t ∈ vt, t.kind ≠ .percent) (hp : pct.kind = .percent)
+    (hval : (∃ v, numOrRange (α := α) (s.ext.has Gen.EXT_RANGE_VALUES) vt = some (.ok v)) ∨
+      (numOrRange (α := α) (s.ext.has Gen.EXT_RANGE_VALUES) vt = none ∧
+        (buildText t0.start vt).isTextEmpty s.cs = false))
+    (hunit : (buildText pct.stop ut).isTextEmpty s.cs = false) :
+    (∀ s4 note, Cut .at s [] body s1 s2 s3 → noteP s3 = (note, s4) →
+      (buildText (curOff s2) body.name).isTextEmpty s.cs = false →
+      (∃ q, (ingredientP s).1 = some (.ingredient
+        ⟨⟨⟨Modifiers.empty, Span.pos (curOff s1)⟩, none, buildText (curOff s2) body.name, none, some q, note⟩,
+         ⟨curOff s, curOff s4⟩⟩)) ∧ (ingredientP s).2.evs = s.evs) ∧
+    (Cut .tilde s [] body s1 s2 s3 → (s3.toks[s3.cur]?).map (·.kind) ≠ some .openParen →
+      (∃ q, (timerP s).1 = some (.timer
+        ⟨⟨if (buildText (curOff s2) body.name).isTextEmpty s.cs then none
+            else some (buildText (curOff s2) body.name), some q⟩, ⟨curOff s, curOff s3⟩⟩)) ∧
+      (timerP s).2.evs = s.evs) := by
+  have hQ : ∀ s' : BP α, Same s s' → ∀ sq, Same s' sq → Sat (parseQuantity (α := α) (vt ++ pct :: ut)) sq
+      (fun r sq' => Same sq sq' ∧ r.quantity.val.unit = some (buildText pct.stop ut)) := by
+    intro s' q' sq qq
+    have q := q'.trans qq
+    exact parseQuantity_quiet_pct vt ut pct t0 sq h0 hws heq hvp hp (by rw [q.2.1, q.1]; exact hval)
+      (by rw [q.1]; exact hunit)
+  constructor
+  · intro s4 note hc hnote hn
+    have q4 : Same s s4 := hc.same.trans (noteP_same hnote)
+    have ht := ingredientTail_quiet_q (α := α) (curOff s) (curOff s4) (curOff s1) (curOff s2) body note s4 _ hq
+      (by rw [q4.2.1]; exact ha) (by rw [q4.1]; exact hn)
+      (fun sq qq => Sat.mono (hQ s4 q4 sq qq) (fun _ _ h => h.1))
+    unfold Sat at ht
+    rw [← ingredientP_cut hc hnote] at ht
+    exact ⟨ht.2, (q4.trans ht.1).2.2⟩
+  · intro hc hnp
+    have q3 : Same s s3 := hc.same
+    have ht := timerTail_quiet (α := α) (curOff s) (curOff s3) (curOff s2) body s3 _ hq
+      (by rw [q3.2.1]; exact ha) hnp
+      (fun sq qq => Sat.mono (hQ s3 q3 sq qq) (fun r _ h => ⟨h.1, by rw [h.2]; rfl⟩))
+    unfold Sat at ht
+    rw [← timerP_cut hc, q3.1] at ht
+    exact ⟨ht.2, (q3.trans ht.1).2.2⟩
+
+/-! non-vacuity: `@salt{1%g}` and `~{1%min}`, every extension on or off (here: off) -/
+def C07_exSaltQ : BP Rat :=
+  ⟨[⟨.at, ['@'], 0⟩, ⟨.word, ['s', 'a', 'l', 't'], 1⟩, ⟨.openBrace, ['{'], 5⟩, ⟨.int, ['1'], 6⟩,
+    ⟨.percent, ['%'], 7⟩, ⟨.word, ['g'], 8⟩, ⟨.closeBrace, ['}'], 9⟩], 0, ⟨0⟩, toyCharSpec, #[], none⟩
+example : ∃ body note s1 s2 s3 s4, Cut .at C07_exSaltQ [] body s1 s2 s3 ∧ noteP s3 = (note, s4) ∧
+    body.quantity = some ([⟨.int, ['1'], 6⟩] ++ ⟨.percent, ['%'], 7⟩ :: [⟨.word, ['g'], 8⟩]) ∧
+    (buildText (curOff s2) body.name).isTextEmpty C07_exSaltQ.cs = false :=
+  ⟨_, _, _, _, _, _, ⟨⟨_, rfl⟩, rfl, rfl⟩, rfl, rfl, rfl⟩
+example : (∃ v, numOrRange (α := Rat) false [⟨.int, ['1'], 6⟩] = some (.ok v)) ∧
+    (buildText 8 [⟨.word, ['g'], 8⟩]).isTextEmpty toyCharSpec = false := ⟨⟨_, rfl⟩, rfl⟩
+def C07_exTimerQ : BP Rat :=
+  ⟨[⟨.tilde, ['~'], 0⟩, ⟨.openBrace, ['{'], 1⟩, ⟨.int, ['1'], 2⟩, ⟨.percent, ['%'], 3⟩,
+    ⟨.word, ['m', 'i', 'n'], 4⟩, ⟨.closeBrace, ['}'], 7⟩], 0, ⟨0⟩, toyCharSpec, #[], none⟩
+example : ∃ body s1 s2 s3, Cut .tilde C07_exTimerQ [] body s1 s2 s3 ∧
+    body.quantity = some ([⟨.int, ['1'], 2⟩] ++ ⟨.percent, ['%'], 3⟩ :: [⟨.word, ['m', 'i', 'n'], 4⟩]) ∧
+    (s3.toks[s3.cur]?).map (·.kind) ≠ some .openParen :=
+  ⟨_, _, _, _, ⟨⟨_, rfl⟩, rfl, rfl⟩, rfl, by decide⟩
 
 /-! non-vacuity: `@salt{}` with every extension off -/
 def C07_exSalt : BP Rat :=
